@@ -77,6 +77,7 @@ Proof.
     (spec_msg_key_is sha1 H1), (msg_key_length sha1 H1).
   rewrite H2; [rewrite app_length, Hpl; lia|exact Hiv|rewrite app_length, Hpl; exact Hal].
 Qed.
+Print Assumptions sealed_length.
 
 Theorem response_reaches_the_client :
   forall (U : universe) inflate sha1 ige_e ige_d v key (rs : list response) chunks,
@@ -143,3 +144,4 @@ Definition cx_resp : response :=
 Example response_ok_instance : pseudo_ok cxU = true /\ response_ok cxU cx_resp.
 Proof. split; [vm_compute; reflexivity|]. unfold response_ok, cx_resp. cbn [r_salt r_sid r_msgid r_seq r_pad r_tid r_fs r_body].
   repeat split; vm_compute; reflexivity. Qed.
+Print Assumptions response_ok_instance.
